@@ -28,7 +28,49 @@ def _copy_sources(dst: str) -> None:
                 shutil.copy2(os.path.join(dp, fn), os.path.join(dst, rel, fn))
 
 
+def _transform_all(root: str, how: str) -> Tuple[bool, str]:
+    """Generic behaviour-preserving rewrites of every source file: `unparse` = regenerate the text from the syntax tree (comments
+    dropped, layout and line numbers changed, quotes/parentheses normalised), `shift` = push every line down by a comment block,
+    `log` = add a logging-style no-op statement at the top of every function body."""
+    import ast
+    n = 0
+    for dp, dns, fns in os.walk(os.path.join(root, 'src')):
+        for fn in fns:
+            if not fn.endswith('.py'):
+                continue
+            p = os.path.join(dp, fn)
+            src = open(p, encoding='utf-8').read()
+            try:
+                tree = ast.parse(src)
+            except SyntaxError:
+                continue
+            if how == 'unparse':
+                new = ast.unparse(tree) + '\n'
+            elif how == 'shift':
+                new = '# generated header line 1\n# generated header line 2\n# generated header line 3\n' + src
+            elif how == 'log':
+                class T(ast.NodeTransformer):
+                    def visit_FunctionDef(self, node):
+                        self.generic_visit(node)
+                        i = 1 if (node.body and isinstance(node.body[0], ast.Expr) and isinstance(node.body[0].value, ast.Constant)
+                                  and isinstance(node.body[0].value.value, str)) else 0
+                        node.body.insert(i, ast.parse('_trace_marker_ = None').body[0])
+                        return node
+                new = ast.unparse(ast.fix_missing_locations(T().visit(tree))) + '\n'
+            else:
+                return False, f'unknown transform {how}'
+            try:
+                compile(new, p, 'exec')
+            except SyntaxError as e:
+                return False, f'transform {how} broke {p}: {e}'
+            open(p, 'w', encoding='utf-8').write(new)
+            n += 1
+    return (n > 0), ('' if n else 'no file transformed')
+
+
 def _apply(case: Dict[str, Any], root: str) -> Tuple[bool, str]:
+    if case.get('transform'):
+        return _transform_all(root, case['transform'])
     for ed in case['edits']:
         p = os.path.join(root, ed['file'])
         if not os.path.exists(p):
@@ -98,6 +140,11 @@ def load_cases(pid: str = None) -> List[Dict[str, Any]]:
             for c in mod.CASES:
                 if pid is None or c['property'] == pid:
                     cases.append(c)
+    # generic twins: whole-tree rewrites that change no behaviour, one set per property
+    props = sorted({c['property'] for c in cases}) if pid is None else [pid]
+    for pr in props:
+        for how in ('unparse', 'shift', 'log'):
+            cases.append({'id': f'{pr}-g-{how}', 'property': pr, 'kind': 'twin', 'transform': how, 'edits': []})
     return cases
 
 
